@@ -18,6 +18,7 @@ def main(argv):
     cov_on = cov.start(repo_root()) if os.environ.get('VERIF_COV', '1') == '1' else False
     from .harness import Session
     res = None
+    s = None
     try:
         mod = importlib.import_module('mon.props.' + prop.lower())
         s = Session(prop, tier, seed, wi, nw)
@@ -25,7 +26,10 @@ def main(argv):
             data = json.load(open(replay))
             if data.get('witness', {}).get('type') == 'load':
                 # witness of the load-fidelity monitor (harness.Session.load): loading it again re-judges it
-                s.load(data['witness']['doc'])
+                try:
+                    s.load(data['witness']['doc'])
+                except Exception:
+                    pass            # a refused load has been judged inside load()
                 s.evaluations += 1
             else:
                 mod.replay(s, data)
@@ -40,7 +44,13 @@ def main(argv):
             res['cov'] = cov.report(repo_root())
             res['cov_lines'] = sorted('%s:%d' % k for k in cov.HIT)
     except BaseException as e:      # the harness itself failed: inconclusive, never a verdict
-        res = {'prop': prop, 'worker': wi, 'harness_error': traceback.format_exc()[-3000:]}
+        err = traceback.format_exc()[-3000:]
+        try:
+            # what the monitors judged before the harness failed stays an observation
+            res = s.result() if s is not None else {}
+        except BaseException:
+            res = {}
+        res.update({'prop': prop, 'worker': wi, 'harness_error': err})
     with open(out, 'w') as f:
         json.dump(res, f)
     return 0
